@@ -50,6 +50,7 @@ type w3Analysis struct {
 	mutations  int
 	queries    int
 	listFailTorn int
+	journalWrites, journalInPlace int
 	violations []simrt.Violation
 	abstract   []string
 	stateN     int
@@ -212,8 +213,10 @@ func (a *w3Analysis) run() {
 	case "C27":
 		a.finalChecks(files, writtenByID)
 		a.crashStates(files, writtenByID, true)
+		a.journalStates(files, true)
 	case "C28":
 		a.crashStates(files, writtenByID, false)
+		a.journalStates(files, false)
 		a.corruptions(files)
 	case "C29", "C40": // C40: the same requests, for the race detector and the deadlock/leak oracles
 		a.finalChecks(files, writtenByID)
@@ -462,6 +465,107 @@ func (a *w3Analysis) crashStates(files []*w3File, written map[int64]*w3Written, 
 					}
 				}
 				a.oneState(files, i, mod, fmt.Sprintf("%s complete, duration patch torn after %d bytes", f.name, k), checkServed)
+			}
+		}
+	}
+}
+
+// w3Replay applies the first k writes of a journal completely and the next one for j bytes.
+// zero=true: the unwritten rest of that write reads as zeros where it extends the file.
+func w3Replay(ops []w3JOp, k, j int, zero bool) []byte {
+	var buf []byte
+	put := func(off int64, data []byte, fill int) {
+		end := int(off) + len(data)
+		if fill > 0 {
+			end = int(off) + fill
+		}
+		if end > len(buf) {
+			buf = append(buf, make([]byte, end-len(buf))...)
+		}
+		copy(buf[off:], data)
+	}
+	for x := 0; x < k && x < len(ops); x++ {
+		put(ops[x].off, ops[x].data, 0)
+	}
+	if k < len(ops) && j > 0 {
+		op := ops[k]
+		if j > len(op.data) {
+			j = len(op.data)
+		}
+		fill := 0
+		if zero && int(op.off)+len(op.data) > len(buf) {
+			fill = len(op.data)
+		}
+		put(op.off, op.data[:j], fill)
+	}
+	return buf
+}
+
+// journalStates enumerates crash states from the write journal. The prefix enumeration of
+// crashStates is complete for a recorder that only appends (plus the duration patch); as soon
+// as the journal of a file holds other writes inside data already written (a part marshalled
+// in place with seek-backs, say), a crash between two such writes leaves a state that no
+// prefix of the final file shows.
+func (a *w3Analysis) journalStates(files []*w3File, checkServed bool) {
+	rng := rand.New(rand.NewSource(a.h.b.CrashSeed ^ 0x2545f491))
+	for i, f := range files {
+		ops := a.h.journal[f.name]
+		if len(ops) == 0 {
+			continue
+		}
+		if full := w3Replay(ops, len(ops), 0, false); !bytes.Equal(full, f.data) {
+			a.violate("!", "infra", "the write journal of %s (%d writes) does not reproduce the file (%d vs %d bytes)", f.name, len(ops), len(full), len(f.data))
+			return
+		}
+		// writes that land inside data already written
+		size := int64(0)
+		var inPlace []int
+		for k, op := range ops {
+			isDurationPatch := f.init != nil && k == len(ops)-1 && len(op.data) == 4 && int(op.off) == f.init.mvhdDurOff
+			if op.off < size && !isDurationPatch {
+				inPlace = append(inPlace, k)
+			}
+			if e := op.off + int64(len(op.data)); e > size {
+				size = e
+			}
+		}
+		a.journalWrites += len(ops)
+		a.journalInPlace += len(inPlace)
+		if len(inPlace) == 0 {
+			continue
+		}
+		chosen := map[int]bool{}
+		for n := 0; n < 48 && n < 4*len(inPlace); n++ {
+			k := inPlace[rng.Intn(len(inPlace))]
+			for _, d := range []int{-1, 0, 1} {
+				if k+d >= 0 && k+d <= len(ops) {
+					chosen[k+d] = true
+				}
+			}
+		}
+		ks := make([]int, 0, len(chosen))
+		for k := range chosen {
+			ks = append(ks, k)
+		}
+		sort.Ints(ks)
+		for _, k := range ks {
+			cuts := []int{0}
+			if k < len(ops) {
+				if n := len(ops[k].data); n > 1 {
+					cuts = append(cuts, 1+rng.Intn(n-1))
+				}
+			}
+			for _, j := range cuts {
+				for _, zero := range []bool{false, true} {
+					if zero && j == 0 {
+						continue
+					}
+					mod := w3Replay(ops, k, j, zero)
+					a.oneState(files, i, mod, fmt.Sprintf("%s after %d of its %d writes and %d bytes of the next (zero-filled rest: %v)", f.name, k, len(ops), j, zero), checkServed)
+					if simrt.Aborted() || len(a.violations) > 3 {
+						return
+					}
+				}
 			}
 		}
 	}
